@@ -53,6 +53,8 @@ def blob_case(draw):
 @st.composite
 def window_case(draw):
     shape = [draw(st.integers(2, 24)), draw(st.integers(2, 24)), draw(st.integers(2, 24))]
+    if draw(st.integers(0, 11)) == 0:  # tomogram-sized volumes (0.5 to 1 million voxels): anything that depends on the volume's size
+        shape = [draw(st.integers(80, 100)), draw(st.integers(80, 100)), draw(st.integers(80, 100))]
     size = [2 * draw(st.integers(1, 8)) for _ in range(3)]
     if draw(st.booleans()):
         size = [size[0]] * 3
@@ -62,17 +64,19 @@ def window_case(draw):
 
 @st.composite
 def place_case(draw):
-    s = draw(st.sampled_from([6, 8, 10]))
+    s = draw(st.sampled_from([6, 8, 10]))  # even templates only: for odd boxes the window start is not pinned by the statement
     n = draw(st.integers(1, 20))
+    fractional = draw(st.integers(0, 3)) == 0
     vol = [draw(st.integers(12, 40)), draw(st.integers(12, 40)), draw(st.integers(12, 40))]
     parts = []
     for i in range(n):
         exact = draw(st.integers(0, 3)) > 0
         parts.append({"pos": [draw(st.integers(-3, vol[a] + 4)) for a in range(3)], "shift": [draw(st.integers(-6, 6)) / 2.0 for a in range(3)],
                       "rot": draw(st.integers(0, 23)) if exact else draw(gen.euler()),
-                      "color": draw(st.integers(1, 9)), "cls": draw(st.integers(1, 4)), "g": draw(st.integers(1, 30)) / 2.0})
+                      "color": draw(st.integers(1, 9)), "cls": draw(st.integers(1, 4)), "g": draw(st.integers(1, 30)) / 2.0,
+                      "tomo": draw(st.sampled_from([1, 1, 2, 5])), "frac": [draw(st.sampled_from([0.0, 0.25, 0.5, 0.7])) for a in range(3)] if fractional else [0.0, 0.0, 0.0]})
     return {"kind": "place", "tsize": s, "tseed": draw(st.integers(0, 2**31 - 1)), "vol": vol, "parts": parts, "feature": draw(st.sampled_from(["object_id", "class", "geom1"])),
-            "prefilled": draw(st.booleans()), "index": draw(st.sampled_from(["default", "default", "reversed", "offset"])), "cluster": draw(st.booleans()),
+            "prefilled": draw(st.booleans()), "index": draw(st.sampled_from(["default", "default", "reversed", "offset", "repeated"])), "cluster": draw(st.booleans()),
             "template_list": draw(st.integers(0, 5)) == 0}
 
 
@@ -340,11 +344,11 @@ def run_place(c, out):
     for i, p in enumerate(parts):
         tot = np.array(p["pos"], float) + 1.0  # 1-based complete position
         a[i, [C.index("x"), C.index("y"), C.index("z")]] = tot - np.array(p["shift"])
-        a[i, [C.index("shift_x"), C.index("shift_y"), C.index("shift_z")]] = p["shift"]
+        a[i, [C.index("shift_x"), C.index("shift_y"), C.index("shift_z")]] = np.array(p["shift"]) + np.array(p.get("frac", [0.0, 0.0, 0.0]))
         ang = oracle.matrix_to_zxz(CUBES[p["rot"]].astype(float)) if isinstance(p["rot"], int) else p["rot"]
         a[i, [C.index("phi"), C.index("theta"), C.index("psi")]] = ang
         a[i, C.index("subtomo_id")] = i + 1
-        a[i, C.index("tomo_id")] = 1
+        a[i, C.index("tomo_id")] = p.get("tomo", 1)  # placement does not look at the tomogram number: lists may interleave several
         a[i, C.index("object_id")], a[i, C.index("class")], a[i, C.index("geom1")] = p["color"], p["cls"], p["g"]
     df = gen.table_df({"cols": C, "rows": a.tolist(), "bulk": None, "index": c["index"]})
     feat = c["feature"]
@@ -391,6 +395,21 @@ def run_place(c, out):
         return
     if not c["template_list"]:
         out.check(np.array_equal(tl_arg, tpl_keep), "place:template_argument_modified", "")
+    fractional = any(f != 0 for p in parts for f in p.get("frac", [0.0]))
+    if len({p.get("tomo", 1) for p in parts}) > 1:
+        out.label("place:several_tomograms")
+    if fractional:
+        # positions between voxels: the statement does not say which neighbour receives the template centre; both usual
+        # conventions (the voxel containing the position, the nearest voxel) are accepted, anything else is a displacement
+        out.label("place:fractional_positions")
+        exp_round = prefill.copy() if prefill is not None else np.zeros(vol)
+        for i, p in enumerate(parts):
+            obj_i = (permute_exact(tpl, CUBES[p["rot"]])[0] > 0.1).astype(float) if isinstance(p["rot"], int) else \
+                (cryomap.rotate(tpl, rotation=srot.from_matrix(oracle.R_cc(*p["rot"])), transpose_rotation=True) > 0.1).astype(float)
+            stamp(exp_round, obj_i, [p["pos"][a_] + (1 if p["frac"][a_] >= 0.5 else 0) for a_ in range(3)], colors[i])
+        if not (np.array_equal(r, exp) or np.array_equal(r, exp_round)):
+            out.fail("place:fractional_position_not_stamped_on_containing_or_nearest_voxel", f"{int((r != exp).sum())} voxels differ from the containing-voxel stamp, {int((r != exp_round).sum())} from the nearest-voxel stamp")
+        return
     if not np.array_equal(r, exp):
         diff = np.argwhere(r != exp)
         vals_r = set(np.unique(r[r != exp]).tolist())
